@@ -75,7 +75,6 @@ structure Cfg where
   splitKeeps : Bool
   joinKeeps : Bool
   bigGetDup : Bool
-  bigUpdWalksRemoved : Bool
   dupChecksBig : Bool
 
 /-- the code under test; whatever the translator did not recognise defaults to the pessimistic reading -/
@@ -87,7 +86,6 @@ def cfg : Cfg where
   splitKeeps := Generated.C20.splitKeepsClass.getD false
   joinKeeps := Generated.C20.joinKeepsClass.getD false
   bigGetDup := Generated.C20.bigMapGetHonoursDup.getD false
-  bigUpdWalksRemoved := Generated.C20.bigMapUpdateWalksRemoved.getD true
   dupChecksBig := Generated.C20.dupChecksBigMap.getD false && Generated.C20.duplicateAsserts
 
 /-- runtime values.  A (big_)map keeps its keys and values in two lists of equal length (`items` of the Python object);
@@ -134,8 +132,7 @@ def Val.toCmp : Val → Option Cmp
 inductive Err where
   | fail
   /-- DUP 0; ITER over a big_map with removed keys; comparable contents other than atoms / pairs of atoms; (big_)maps whose
-  key type is not an atom type; PUSH of a map literal; `BigMapType.update` on an existing key while the comprehensions walk
-  the removed keys (the C15 defect) -/
+  key type is not an atom type; PUSH of a map literal -/
   | unmodelled
   | fuel
   deriving DecidableEq, Repr
@@ -248,7 +245,8 @@ def mapGet (c : Cfg) (big : Bool) (kt vt : Ty) (keys : List Atom) (vals : List V
       | Option.none => .ok Option.none     -- a removed key yields None; an unknown key asks the (empty, offline) context: None
     | _ => .error .unmodelled
 
-/-- `update(key, val)` → (previous value, new map) -/
+/-- `update(key, val)` → (previous value, new map).  `MapType.update`, and `BigMapType.update` as repaired for C15 (its
+comprehensions walk `self.items`; `removed_keys` is a set: add on removal, discard on insertion) -/
 def mapUpdate (c : Cfg) (big : Bool) (kt vt : Ty) (keys : List Atom) (vals : List Val) (removed : List Atom)
     (key : Val) (val : Option Val) : M (Option Val × Val) := do
   let prev ← mapGet c big kt vt keys vals removed key false
@@ -256,13 +254,11 @@ def mapUpdate (c : Cfg) (big : Bool) (kt vt : Ty) (keys : List Atom) (vals : Lis
   | .atom k =>
     match prev, val with
     | Option.some p, Option.some x =>
-      if big && c.bigUpdWalksRemoved && !removed.isEmpty then .error .unmodelled
-      else pure (Option.some p, .map big kt vt keys (replaceVal k x keys vals) removed)
+      -- offline a previous value always sits in `items` (the `else` branch of the big_map code needs a context value)
+      pure (Option.some p, .map big kt vt keys (replaceVal k x keys vals) removed)
     | Option.some p, Option.none =>
-      if big && c.bigUpdWalksRemoved && !removed.isEmpty then .error .unmodelled
-      else
-        let (ks, vs) := removeKey k keys vals
-        pure (Option.some p, .map big kt vt ks vs (if big then (if removed.contains k then removed else k :: removed) else removed))
+      let (ks, vs) := removeKey k keys vals
+      pure (Option.some p, .map big kt vt ks vs (if big then (if removed.contains k then removed else k :: removed) else removed))
     | Option.none, Option.some x =>
       let (ks, vs) := insertSorted k x keys vals
       pure (Option.none, .map big kt vt ks vs (if big then removed.filter (· != k) else removed))
